@@ -311,7 +311,7 @@ def check(ctx):
     rv = G.method('_read_vector')
     ur = unpacks(rv)
     rets = [norm(s.value) for s in walk_own(rv.node) if isinstance(s, ast.Return)]
-    ctx.inst('R5', rv, 'vector-reader', len(ur) == 1 and fold_in(rv, ur[0].args[0]) == '<fff' and rets == ['[x, y, z]'], 'vector read with <fff into [x, y, z]')
+    ctx.inst('R5', rv, 'vector-reader', len(ur) == 1 and fold_in(rv, ur[0].args[0]) == '<fff' and (rets == ['[x, y, z]'] or rets == ['list(%s)' % norm(ur[0])]), 'vector read with <fff into [x, y, z] (the three values in order, as a list)')
     gs = G.method('set_from_mem_data')
     SV = fold_in(gs, ast.parse('self.SIZE_VECTOR', mode='eval').body)
     st = {norm(s.targets[0]): s.value for s in walk_own(gs.node) if isinstance(s, ast.Assign)}
